@@ -114,6 +114,18 @@ def wild_frames(rng):
         "obj-int-float": lambda: pd.Series(pick([1, 2.5, 3]), dtype=object),
         "obj-bools": lambda: pd.Series(pick([True, False]), dtype=object),
         "obj-mixed": lambda: pd.Series(pick([1, "x", None, 2.5]), dtype=object),
+        # every kind pandas' `infer_dtype` tells apart in an object array (integer-na, floating, boolean with None, bytes,
+        # decimal, datetime objects, mixed-integer, ...)
+        "obj-int-nan": lambda: pd.Series(pick([1, np.nan, 3]), dtype=object),
+        "obj-float-none": lambda: pd.Series(pick([1.5, None, 2.5]), dtype=object),
+        "obj-bool-none": lambda: pd.Series(pick([True, None, False]), dtype=object),
+        "obj-bytes": lambda: pd.Series(pick([b"a", b"bc"]), dtype=object),
+        "obj-int-str": lambda: pd.Series(pick([1, "x", 2]), dtype=object),
+        "obj-timestamps": lambda: pd.Series(pick([pd.Timestamp("2020-01-01"), pd.Timestamp("2021-02-03")]), dtype=object),
+        "obj-timedeltas": lambda: pd.Series(pick([pd.Timedelta("1D"), pd.Timedelta("2h")]), dtype=object),
+        "const-int": lambda: np.array([7] * n, dtype="int64"),
+        "const-float": lambda: np.array([2.5] * n, dtype="float64"),
+        "const-dt": lambda: pd.DatetimeIndex([pd.Timestamp("2020-05-05 01:02:03")] * n),
         "obj-none": lambda: pd.Series([None] * n, dtype=object),
         "obj-empty": lambda: pd.Series([], dtype=object),
         "float-empty": lambda: pd.Series([], dtype="float64"),
